@@ -43,8 +43,32 @@ def run_once(repo, ids):
     cmd = ['/venv/bin/python', '-m', 'pytest', '-q', '-p', 'no:cacheprovider',
            '--timeout=120', '--continue-on-collection-errors',
            '--junitxml=' + xml] + list(ids)
-    p = subprocess.run(cmd, cwd=repo, env=env, stdout=subprocess.PIPE,
-                       stderr=subprocess.STDOUT, text=True)
+    # pytest sometimes hangs at interpreter exit on this machine (a Timer
+    # thread of the llcp tests): once the junit file is complete the process
+    # gets 20 s to leave, the whole run 40 minutes
+    import time
+    log = tempfile.TemporaryFile(mode='w+')
+    proc = subprocess.Popen(cmd, cwd=repo, env=env, stdout=log,
+                            stderr=subprocess.STDOUT, text=True)
+    t0, done_at = time.time(), None
+    while proc.poll() is None:
+        time.sleep(2)
+        try:
+            complete = os.path.getsize(xml) > 0
+        except OSError:
+            complete = False
+        if complete and done_at is None:
+            done_at = time.time()
+        if (done_at and time.time() - done_at > 20) or \
+                time.time() - t0 > 2400:
+            proc.kill()
+            proc.wait()
+            break
+    log.seek(0)
+
+    class P(object):
+        stdout = log.read()
+    p = P()
     passed = set()
     try:
         for tc in ET.parse(xml).getroot().iter('testcase'):
